@@ -4,7 +4,7 @@
    current tag of an existing token; a refused request changes nothing. *)
 From Coq Require Import ZArith List Bool Lia.
 From Galene Require Import Model.TokenStore Proofs.TokenStoreBasics Proofs.TokenStoreInv
-  Proofs.TokenStoreProps Proofs.TokenStoreCond.
+  Proofs.TokenStoreProps Proofs.TokenStoreCond Proofs.TokenStoreTheorems.
 Import ListNotations.
 Open Scope Z_scope.
 
@@ -44,7 +44,7 @@ Definition api_ops (s : state) (q : areq) : list op :=
 Lemma api_is_history : forall s q, fst (api_step s q) = run s (api_ops s q).
 Proof.
   intros s q. destruct q as [g n im inm | g | g t st0 st | g n im inm t st0 st | g n im inm st];
-    unfold api_step, api_ops.
+    unfold api_step, api_step_f, api_ops; cbn [wstep].
   - destruct (step s (OGet n)) as [s1 o] eqn:E. cbn [run]. rewrite E. cbn [fst].
     destruct (o_res o), (o_toks o); try reflexivity.
     destruct (negb (tk_group t =? g)); [reflexivity|].
@@ -111,7 +111,7 @@ Lemma api_put_if_match : forall s g n e inm t st0 st,
   is2xx (a_status (snd (api_step s (APut g n (Some (HTag e)) inm t st0 st)))) ->
   o_res (snd (step s (OGet n))) = ROk /\ o_etag (snd (step s (OGet n))) = Some e.
 Proof.
-  intros s g n e inm t st0 st. unfold api_step.
+  intros s g n e inm t st0 st. unfold api_step, api_step_f; cbn [wstep].
   destruct (step s (OGet n)) as [s1 o] eqn:E. cbn [snd].
   assert (Hnone : check_pre false None (Some (HTag e)) inm = Some 412) by reflexivity.
   destruct (o_res o) eqn:R, (o_toks o) eqn:T; cbn [snd a_status];
@@ -129,7 +129,7 @@ Lemma api_delete_if_match : forall s g n e inm st,
   is2xx (a_status (snd (api_step s (ADelete g n (Some (HTag e)) inm st)))) ->
   o_res (snd (step s (OGet n))) = ROk /\ o_etag (snd (step s (OGet n))) = Some e.
 Proof.
-  intros s g n e inm st. unfold api_step.
+  intros s g n e inm st. unfold api_step, api_step_f; cbn [wstep].
   destruct (step s (OGet n)) as [s1 o] eqn:E. cbn [snd].
   destruct (o_res o) eqn:R, (o_toks o) eqn:T; cbn [snd a_status];
     try (intros H; exfalso; revert H; apply not2xx; cbn; auto; fail).
@@ -165,7 +165,7 @@ Lemma api_refused_unchanged : forall s q,
   ~ is2xx (a_status (snd (api_step s q))) -> s_file (fst (api_step s q)) = s_file s.
 Proof.
   intros s q. destruct q as [g n im inm | g | g t st0 st | g n im inm t st0 st | g n im inm st];
-    unfold api_step.
+    unfold api_step, api_step_f; cbn [wstep].
   - intros _. pose proof (get_file s n) as G. destruct (step s (OGet n)) as [s1 o]. cbn [fst] in G.
     destruct (o_res o), (o_toks o); cbn [fst]; auto.
     destruct (negb (tk_group t =? g)); cbn [fst]; auto.
@@ -221,4 +221,145 @@ Lemma api_put_after_delete_example :
   let (s4, rd) := api_step s3 (AGet 1 1 None None) in
   a_status ra = 200 /\ a_etag ra = Some (Sx 4) /\ a_status rb = 204 /\
   a_status rc = 412 /\ a_status rd = 404.
+Proof. vm_compute. repeat split; reflexivity. Qed.
+
+(* ================= a refused update changes nothing ================= *)
+
+(* the file after a system call of a write operation failed *)
+Lemma fail_file_cases : forall m f w k,
+  (k < length (pl_prog (wplan m f w)))%nat ->
+  let d := d_main (fail_disk (mkDisk f None) (pl_prog (wplan m f w)) k) in
+  d = f \/ (f = None /\ exists st0, d = Some (mkFile [] st0) /\ In st0 (wop_stamps w)).
+Proof.
+  intros m f w k Hk. cbv zeta.
+  destruct (wplan_cases m f w) as [m1 lr r L E _ | m1 e0 fl toks2 st rb L E Hst K E2 | m1 e0 t st0 st L E Lk E2].
+  - rewrite E in Hk. cbn in Hk. lia.
+  - left. subst f. rewrite E2 in *. rewrite Hst in *. rewrite fail_disk_main. unfold crash_disk.
+    destruct (rewrite_plan_cases toks2 fl st rb) as [[_ R]|[_ R]]; rewrite R in *; cbn [pl_prog] in *.
+    + cbn in Hk. replace k with 0%nat by lia. reflexivity.
+    + rewrite rewrite_prog_split in Hk |- *.
+      rewrite fail_last; [reflexivity | apply rewrite_pre_tmp_only | exact Hk].
+  - rewrite E2 in *. rewrite E. cbn [pl_prog add_prog length wop_stamps] in *.
+    destruct k as [|[|k]]; [left; reflexivity | | lia].
+    destruct f as [fl|]; [left; reflexivity|].
+    right. split; [reflexivity|]. exists st0. split; [reflexivity | left; reflexivity].
+Qed.
+
+(* a freshly started server on two files that hold the same set *)
+Lemma restart_get_empty_file : forall st0 n, st_mtime st0 <> 0 ->
+  snd (step (mkState reset_mem (Some (mkFile [] st0))) (OGet n)) =
+  snd (step (mkState reset_mem None) (OGet n)).
+Proof.
+  intros st0 n H. cbn [step s_mem s_file load f_st f_lines].
+  assert (E : stamp_eqb (m_st reset_mem) st0 = false).
+  { apply stamp_eqb_neq. cbn. intros X. apply H. rewrite <- X. reflexivity. }
+  rewrite E. reflexivity.
+Qed.
+
+(* what the server answers after a refused write (tag mismatch, missing
+   token, or a failed system call) is what it answered before *)
+Lemma refused_same_view : forall used s o w,
+  Inv used s -> fresh_stamps used (wop_stamps w) -> not_expire w ->
+  (o = ODo w \/ exists k, o = OFail w k) ->
+  o_res (snd (step s o)) <> ROk ->
+  forall n, snd (step (fst (step s o)) (OGet n)) = snd (step s (OGet n)).
+Proof.
+  intros used s o w HI Hf Hne Ho Hr n.
+  assert (HI' : Inv (op_stamps o ++ used) (fst (step s o))).
+  { apply step_Inv; [exact HI | |].
+    - destruct Ho as [->|(k & ->)]; exact Hf.
+    - destruct Ho as [->|(k & ->)]; [exact I | exact Hne]. }
+  rewrite (mirror_get _ _ n HI'), (mirror_get _ _ n HI). unfold restart_state.
+  assert (Hfile : s_file (fst (step s o)) = s_file s \/
+                  (s_file s = None /\ exists st0, s_file (fst (step s o)) = Some (mkFile [] st0) /\ st_mtime st0 <> 0)).
+  { destruct Ho as [->|(k & ->)].
+    - left. apply do_refused_file; exact Hr.
+    - destruct s as [m f]. cbn [step s_mem s_file] in *.
+      destruct (k <? length (pl_prog (wplan m f w)))%nat eqn:Hk.
+      + apply Nat.ltb_lt in Hk. cbn [fst s_file].
+        destruct (fail_file_cases m f w k Hk) as [H|(H0 & st0 & H & Hin)]; [left; exact H|].
+        right. split; [exact H0|]. exists st0. split; [exact H | apply (Hf _ Hin)].
+      + left. cbn [fst s_file snd o_res] in *.
+        apply (do_refused_file (mkState m f) w). exact Hr. }
+  destruct Hfile as [->|(H0 & st0 & -> & Hmt)]; [reflexivity|].
+  rewrite H0. apply restart_get_empty_file; exact Hmt.
+Qed.
+
+(* ================= the signalling commands ================= *)
+
+Definition wop_op (fault : bool) (s : state) (w : wop) : op :=
+  if fault then OFail w (fd_fail_index (pl_prog (wplan (s_mem s) (s_file s) w))) else ODo w.
+
+Lemma wstep_is_op : forall fault s w, wstep fault s w = step s (wop_op fault s w).
+Proof. intros [|] s w; reflexivity. Qed.
+
+Definition sig_ops (fault : bool) (s : state) (q : sreq) : list op :=
+  match q with
+  | SMake t st0 st => [wop_op fault s (WUpdate t None st0 st)]
+  | SEdit g n exp nbf st0 st =>
+    let o := snd (step s (OGet n)) in
+    let s1 := fst (step s (OGet n)) in
+    match o_res o, o_toks o with
+    | ROk, old :: _ =>
+      if negb (tk_group old =? g) then [OGet n]
+      else [OGet n;
+            wop_op fault s1
+              (WUpdate (mkTok (tk_name old) (tk_group old)
+                              (match exp with Some e => Some e | None => tk_exp old end)
+                              (match nbf with Some b => Some b | None => tk_nbf old end)
+                              (tk_data old))
+                       (o_etag o) st0 st)]
+    | _, _ => [OGet n]
+    end
+  | SList g => [OList g]
+  end.
+
+(* a signalling command is a history of store operations: edittoken is a Get
+   followed by an Update that carries the tag just read *)
+Lemma sig_is_history : forall fault s q, fst (sig_step fault s q) = run s (sig_ops fault s q).
+Proof.
+  intros fault s q. destruct q as [t st0 st | g n exp nbf st0 st | g]; unfold sig_step, sig_ops.
+  - rewrite wstep_is_op. reflexivity.
+  - destruct (step s (OGet n)) as [s1 o] eqn:E. cbn [fst snd].
+    destruct (o_res o), (o_toks o); try (cbn [run]; rewrite E; reflexivity).
+    destruct (negb (tk_group t =? g)); [cbn [run]; rewrite E; reflexivity|].
+    rewrite wstep_is_op. cbn [run]. rewrite E. reflexivity.
+  - reflexivity.
+Qed.
+
+(* over histories: after a refused update -- through any path, for any
+   reason -- the running server answers as before the update, and as a
+   restarted server *)
+Lemma refused_update_hist : forall h o w,
+  fresh [] (h ++ [o]) -> Forall ok_op h -> not_expire w ->
+  (o = ODo w \/ exists k, o = OFail w k) ->
+  let s := run init_state h in
+  o_res (snd (step s o)) <> ROk ->
+  forall n,
+    snd (step (fst (step s o)) (OGet n)) = snd (step s (OGet n)) /\
+    snd (step (fst (step s o)) (OGet n)) = snd (step (fst (step (fst (step s o)) ORestart)) (OGet n)).
+Proof.
+  intros h o w Hf Hok Hne Ho s Hr n.
+  apply fresh_app in Hf. destruct Hf as [Hf0 [Hf1 _]].
+  pose proof (reach_Inv h Hf0 Hok) as HI. fold s in HI.
+  assert (Hst : op_stamps o = wop_stamps w) by (destruct Ho as [->|(k & ->)]; reflexivity).
+  rewrite Hst in Hf1.
+  split.
+  - eapply refused_same_view; eassumption.
+  - rewrite restart_is_restart_state. eapply mirror_get.
+    rewrite <- Hst in Hf1.
+    apply step_Inv; [exact HI | exact Hf1 |].
+    destruct Ho as [->|(k & ->)]; [exact I | exact Hne].
+Qed.
+
+(* the seeded scenario on the model: a token is revoked by moving its expiry
+   into the past; an edit that would revive it is refused because the file
+   cannot be rewritten; the token keeps the revoked expiry *)
+Lemma sig_refused_edit_example :
+  let s0 := fst (sig_step false (fst (sig_step false init_state (SMake tX (Sx 1) (Sx 2)))) (SMake tY (Sx 3) (Sx 4))) in
+  let s1 := fst (sig_step false s0 (SEdit 1 1 (Some (-3600)) None (Sx 5) (Sx 6))) in
+  let (s2, o) := sig_step true s1 (SEdit 1 1 (Some 86400) None (Sx 7) (Sx 8)) in
+  o_res o = ROther /\
+  o_toks (snd (step s2 (OGet 1))) = [mkTok 1 1 (Some (-3600)) None 1] /\
+  s_file s2 = s_file s1.
 Proof. vm_compute. repeat split; reflexivity. Qed.
